@@ -578,6 +578,9 @@ type vhsrvReq struct {
 	N []uint64 `json:"n"`
 	S []string `json:"s"`
 	U *uint64  `json:"u"`
+	// fixed histories only: force this answer at backend call index FaultCall of this request
+	FaultAns  *vhsrvAns `json:"-"`
+	FaultCall int       `json:"-"`
 }
 
 type vhsrvStep struct {
@@ -599,9 +602,10 @@ type vhsrvConn struct {
 }
 
 type vhsrvWorld struct {
-	b     *vhsrvBackend
-	srv   *Server
-	conns []*vhsrvConn
+	b       *vhsrvBackend
+	srv     *Server
+	conns   []*vhsrvConn
+	timeout time.Duration // per request; 0 = 20 s
 }
 
 func vhsrvNewWorld(r *rand.Rand, nconn int) *vhsrvWorld {
@@ -759,7 +763,11 @@ func (w *vhsrvWorld) do(q vhsrvReq) (vhsrvStep, error) {
 	m := q.msg()
 	errc := make(chan error, 1)
 	go func() { errc <- send(ulog.Null, cn.c, tag(cn.tag), m) }()
-	cn.c.SetReadDeadline(time.Now().Add(20 * time.Second))
+	to := w.timeout
+	if to == 0 {
+		to = 20 * time.Second
+	}
+	cn.c.SetReadDeadline(time.Now().Add(to))
 	tg, r, err := recv(ulog.Null, cn.c, 16<<20, msgDotLRegistry.get)
 	if err != nil {
 		return st, fmt.Errorf("recv: %v", err)
